@@ -25,6 +25,7 @@ import (
 	"strings"
 	"testing"
 
+	nri "github.com/containerd/nri/pkg/api"
 	xgen "github.com/containerd/nri/pkg/runtime-tools/generate"
 	rspec "github.com/opencontainers/runtime-spec/specs-go"
 	rgen "github.com/opencontainers/runtime-tools/generate"
@@ -40,7 +41,7 @@ type applied struct {
 }
 
 // applyOnce runs the code under test on a fresh copy of the spec.
-func applyOnce(specJSON []byte, a *Adj, fromSpec bool) (res applied) {
+func applyOnce(specJSON []byte, a *Adj, fromSpec bool, shared ...*nri.ContainerAdjustment) (res applied) {
 	spec := &rspec.Spec{}
 	if err := json.Unmarshal(specJSON, spec); err != nil {
 		res.err = fmt.Errorf("harness: cannot decode spec: %w", err)
@@ -70,7 +71,11 @@ func applyOnce(specJSON []byte, a *Adj, fromSpec bool) (res applied) {
 			return nil
 		}),
 	)
-	res.err = xg.Adjust(a.ToNRI())
+	adj := a.ToNRI()
+	if len(shared) > 0 && shared[0] != nil {
+		adj = shared[0] // the very same adjustment object as in earlier applications
+	}
+	res.err = xg.Adjust(adj)
 	res.spec = rg.Config
 	return res
 }
@@ -671,8 +676,16 @@ func runC13(c C13Case) ev.Outcome {
 
 	var first applied
 	var firstCanon string
+	// Every second application reuses ONE adjustment object (a runtime may apply the same
+	// message to several specs, and "the same inputs" includes the same object): if Adjust
+	// rewrites its argument, later applications see other input.
+	sharedAdj := c.Adj.ToNRI()
 	for i := 0; i < reps; i++ {
-		res := applyOnce(specJSON, &c.Adj, c.FromSpec)
+		var sh *nri.ContainerAdjustment
+		if i%2 == 1 {
+			sh = sharedAdj
+		}
+		res := applyOnce(specJSON, &c.Adj, c.FromSpec, sh)
 		if res.panicked != nil {
 			return ev.Failf("Adjust panicked (application %d): %v", i, res.panicked)
 		}
